@@ -121,6 +121,8 @@ fn small_alphabet() -> Vec<Req> {
         Req::Word,
         Req::Words(0),
         Req::Words(2),
+        Req::Words(usize::MAX),
+        Req::Words(usize::MAX / 4 + 1),
         Req::Str,
         Req::Bit64,
         Req::Typed(0),  // a mask
@@ -190,7 +192,7 @@ fn random_req(rng: &mut Rng) -> Req {
         2 => Req::Bit32,
         3 => Req::Id,
         4 => Req::ExtInst,
-        5 => Req::Words(rng.below(4) as usize),
+        5 => Req::Words(if rng.below(8) == 0 { *rng.pick(LIMITS) } else { rng.below(4) as usize }),
         6 | 7 | 8 => Req::Str,
         9 => Req::Bit64,
         10 | 11 => Req::Typed(rng.below(TYPED.len() as u64) as usize),
